@@ -16,6 +16,7 @@ def run(prog: Program, rep: Report, tier: str) -> None:
     rep.rule('C18-D1', 'query purity: for each public query and each of its parameters, the interprocedural effect summary contains no write (in-place tensor operation, out=, item/attribute store or delete, container mutator, augmented assignment, graph mutator) on the parameter object or on anything reachable from it (fields, elements, views of tensor storage); the documented `labels` argument of factorize_rule is the only exemption')
     rep.rule('C18-D2', 'every in-place sink in the call graphs of the queries writes storage that is fresh or owned: per sink the root set of the written object is computed; a sink whose roots are parameters of a non-query function is discharged at that function\'s call sites by D1')
     rep.rule('C18-D3', 'clone independence: the results of PatternedTensor.clone and MultiTensor.clone contain no storage of self')
+    rep.rule('C18-D5', 'no state persists between calls through default arguments: a default that builds a mutable object is written by no path of the function (interprocedural effect summary) and is not returned')
     rep.rule('C18-D4', 'no query writes a module-level mutable other than the diagnostic letter cache and warnings.formatwarning')
     rep.not_decided += ['bit-identical repeatability of floating-point results (no nondeterminism source is called, but float reproducibility is not a code-shape fact)']
     rep.trusted += ['closed list of view-producing operations (sa/effects.py VIEW_METHODS/VIEW_FUNCS)', 'naming convention: torch/PatternedTensor methods ending in `_` and out= are the only in-place tensor operations; everything else returns fresh storage',
@@ -75,6 +76,48 @@ def run(prog: Program, rep: Report, tier: str) -> None:
         f = prog.func(mod, fn)
         effs = [e for e in eng.summaries[f].writes if e.root.startswith('G:') and e.root not in allowed]
         rep.ob('C18-D4 globals', f.fq(), f"{fn} writes no module-level mutable", f.loc(), not effs, '' if not effs else f"writes {sorted({e.root for e in effs})} at {effs[0].loc}")
+
+    # D5 default arguments: a default is evaluated once, at definition time; a mutable default that the body (or a callee)
+    # writes, or that the function hands out, is state that persists from one call to the next
+    n_def = 0
+    for f in prog.all_functions():
+        a = f.node.args
+        pos = a.posonlyargs + a.args
+        pairs = list(zip(pos[len(pos) - len(a.defaults):], a.defaults)) + [(k, d) for k, d in zip(a.kwonlyargs, a.kw_defaults) if d is not None]
+        for arg, d in pairs:
+            n_def += 1
+            if not _mutable_fresh(d):
+                continue
+            S = eng.summaries.get(f)
+            writes = [e for e in (S.writes if S else []) if e.root == f"P:{arg.arg}" or e.root.startswith(f"P:{arg.arg}.")]
+            escapes = S is not None and any(r == f"P:{arg.arg}" or r.startswith(f"P:{arg.arg}.") for r in (set(S.ret.id) | set(S.ret.content)))
+            ok = not writes and not escapes
+            rep.ob('C18-D5 default-arguments', f.fq(), f"{f.qualname}({arg.arg}={norm(d)})", f.loc(d), ok,
+                   'the shared default object is never written and never handed out' if ok else
+                   (f"the default `{norm(d)}` is one object shared by every call that omits `{arg.arg}`; " +
+                    (f"it is written by `{writes[0].text}` ({writes[0].loc})" if writes else 'it is returned to the caller') +
+                    ': what one call adds is seen by the next, so the same call gives different results the second time'))
+    rep.analysed['default_arguments_examined'] = n_def
+    rep.floor('C18-D5 defaults examined', n_def, 40)
+    ctl = ast.parse("def f(x, acc=[]):\n    acc.append(x)\n    return acc\n").body[0].args.defaults[0]
+    rep.ob('C18-D5 default-arguments', 'positive-control', 'a list literal default is recognised as a mutable default', '-', _mutable_fresh(ctl), '', nontrivial=False)
+
+
+MUTABLE_CTORS = {'list', 'dict', 'set', 'defaultdict', 'OrderedDict', 'Counter', 'deque', 'bytearray'}
+
+
+def _mutable_fresh(d: ast.AST) -> bool:
+    if isinstance(d, (ast.List, ast.Dict, ast.Set, ast.ListComp, ast.DictComp, ast.SetComp)):
+        return True
+    if isinstance(d, ast.Call):
+        fn = d.func
+        name = fn.id if isinstance(fn, ast.Name) else fn.attr if isinstance(fn, ast.Attribute) else ''
+        if name in MUTABLE_CTORS:
+            return True
+        if name in ('frozenset', 'tuple', 'str', 'int', 'float', 'bool', 'bytes'):
+            return False
+        return True            # any other call builds an object of unknown mutability once, at definition time
+    return False
 
 
 def reachable_functions(prog, eng, starts):
